@@ -237,13 +237,21 @@ func runC05(ctx *core.Ctx, idx int) *core.Result {
 		g.Comment = true
 		c = g.RandomChangeWide()
 		pkgGuard := idx%6 == 2
+		pkgName := "p"
+		if idx%10 == 8 {
+			// the code of the patch is spelled like the package name (and like an import name): the package clause and the
+			// imports are not code and stay as they are
+			pkgGuard, pkgName = false, "tgtpkg"
+			c = &gen.Change{Kind: "expr", Schema: "c05-identifier-like-package-name", Lines: []gen.Line{gen.L('-', "tgtpkg"), gen.L('+', "renamedpkg")}}
+			res.Ob("patches-spelled-like-the-package-name", 1)
+		}
 		for f := 0; f < 4; f++ {
 			plants, _ := g.InstancePlants(c, 1+r.Intn(10), r.Intn(3))
 			hdr := ""
 			if r.Intn(2) == 0 {
 				hdr = "//go:build linux || darwin\n\n"
 			}
-			pkg := "p"
+			pkg := pkgName
 			if pkgGuard && f%2 == 1 {
 				pkg = "p_test" // another package: a change guarded by "package p" must leave the file alone
 				guardFails[len(srcs)] = true
